@@ -87,7 +87,8 @@ class ReportLuns(SCSICommand):
 
         for l in data["luns"]:
             _r = bytearray(8)
-            encode_dict(l, cls._datain_bits, _r)
+            # unmarshall_datain names the keys lun0, lun1, ...
+            encode_dict({"lun": next(iter(l.values()))}, cls._datain_bits, _r)
 
             result += _r
         result[:4] = scsi_int_to_ba(len(result) - 8, 4)
